@@ -149,11 +149,19 @@ def run(ctx):
         for base, conv in variants:
             name = base + ('one' if one else '')
             fn = getattr(etl, name)
+            # the mapping to fill may be supplied: a plain dict, an ordered one, or (for the *one variants) one that answers
+            # unknown keys by itself (defaultdict, a dict subclass with __missing__)
+            import collections as _c
+            class _Missing(dict):
+                def __missing__(self, k):
+                    return 'unknown'
+            target = rng.choice([None, None, {}, _c.OrderedDict()] + ([_c.defaultdict(lambda: 'unknown'), _Missing(), _c.defaultdict(list)] if one else []))
+            dkw = {} if target is None else {'dictionary': target}
             try:
                 if base == 'lookup':
-                    d = fn(t, key, value, **({'strict': strict} if one else {}))
+                    d = fn(t, key, value, **dict(dkw, **({'strict': strict} if one else {})))
                 else:
-                    d = fn(t, key, **({'strict': strict} if one else {}))
+                    d = fn(t, key, **dict(dkw, **({'strict': strict} if one else {})))
                 real = proto.enc_table(dict_rows(d, one, conv or (lambda v: v)))
             except proto.Unencodable:
                 continue
@@ -164,7 +172,8 @@ def run(ctx):
                      sample={'op': name, 'table': repr(t), 'key': repr(key), 'value': repr(value), 'strict': strict, 'out': real}
                      if len(ctx.samples) < 6 and len(t) > 3 else None)
             ctx.count('lookup:' + name)
-            case = {'op': name, 'table': repr(t), 'key': repr(key), 'value': repr(value), 'strict': strict, 'real': real, 'spec': spec}
+            case = {'op': name, 'table': repr(t), 'key': repr(key), 'value': repr(value), 'strict': strict, 'real': real, 'spec': spec,
+                    'dictionary': type(target).__name__}
             ctx.exact(real == spec, case)
             if real != spec:
                 if spec.startswith(('PARSE', 'BADOP')):
